@@ -831,6 +831,15 @@ func runC13(e *env) {
 	for i := 0; i < nC; i++ {
 		c13Conc(e, r, i)
 	}
+	// the lock sections of the shuffle-shard queries one by one (c13_il.go)
+	nI := 900
+	if !e.quick {
+		nI = 15000
+	}
+	r = newRng(e.seed, 4)
+	for i := 0; i < nI; i++ {
+		c13IHist(e, r)
+	}
 }
 
 // c13Tables prints Lean definitions read from the running code / its source:
